@@ -83,6 +83,8 @@ func c15Exec(c *Ctx, op string) string {
 	switch f[0] {
 	case "sr.filter":
 		return srExec(c, op)
+	case "cni.chain":
+		return c20Exec(c, []string{op})[0]
 	case "#":
 		if len(f) >= 4 && f[1] == "fuzz" {
 			raw, _ := hex.DecodeString(strings.TrimPrefix(f[3], "-"))
@@ -313,4 +315,6 @@ func c15Run(c *Ctx) {
 	}
 	// (4) stored records through the daemon's start-up filter
 	srRun(c, "C15", c.Scale(600, 12000))
+	// (5) CNI configuration lists through terway-cli (c20.go)
+	c15ChainRun(c, c.Scale(500, 8000))
 }
